@@ -202,6 +202,9 @@ func keyedHistoryOpt(depth int, negDelay bool) func() {
 		}
 		ctxSet := vsched.Choose(2) == 1
 		script := vsched.Choose(3)
+		if negDelay && script == iReturnNil && vsched.Choose(2) == 1 {
+			script = 3 // the constructor returns a nil Routine: a data-only key, never "failed"
+		}
 		m := newKModel(delay, ctxSet, script)
 		opts := []keyed.Option[string, int]{nil} // (a nil option is skipped; the options after it still apply)
 		if delay {
@@ -210,6 +213,9 @@ func keyedHistoryOpt(depth int, negDelay bool) func() {
 		ctors := 0
 		ctor := func(key string) (keyed.Routine, int) {
 			ctors++
+			if script == 3 {
+				return nil, ctors
+			}
 			return scriptRoutine(script), ctors
 		}
 		var k *keyed.Keyed[string, int]
